@@ -156,6 +156,11 @@ def run(chk, repo, tier):
         if isinstance(n, ast.Assign) and isinstance(n.targets[0], ast.Name) and isinstance(n.value, ast.Subscript) \
                 and isinstance(n.value.slice, ast.Name):
             idx_of[n.targets[0].id] = n.value.slice.id
+        # for i, from_comp in enumerate(nodes): the same pairing of a compartment variable with its index variable
+        if isinstance(n, ast.For) and isinstance(n.target, ast.Tuple) and len(n.target.elts) == 2 \
+                and all(isinstance(e, ast.Name) for e in n.target.elts) and isinstance(n.iter, ast.Call) \
+                and dotted(n.iter.func) == 'enumerate' and len(n.iter.args) == 1:
+            idx_of[n.target.elts[1].id] = n.target.elts[0].id
     flows = {}       # rate var -> (src var, dst var)
     for n in walk_no_nested(cm.node):
         if isinstance(n, ast.Assign) and isinstance(n.targets[0], ast.Name) and isinstance(n.value, ast.Call) \
